@@ -70,7 +70,8 @@ class AsyncGraphNodeExecutor:
             # inside every item run. Passing them along would turn them into
             # broadcast values and make them subject to clone.
             inner_bound = node.graph.inputs.bound
-            map_inputs = {k: v for k, v in inner_inputs.items() if not (k in inner_bound and v is inner_bound[k])}
+            # (a mapped parameter is always passed: its list is what the map iterates over)
+            map_inputs = {k: v for k, v in inner_inputs.items() if k in original_params or not (k in inner_bound and v is inner_bound[k])}
             results = await self.runner.map(
                 node.graph,
                 map_inputs,
